@@ -149,13 +149,18 @@ impl PanicInfo {
         if self.step_budget {
             return format!("StepBudget[{}]", self.msg);
         }
-        let m: String = self
-            .msg
-            .chars()
-            .map(|c| if c.is_ascii_digit() { '#' } else { c })
-            .take(60)
-            .collect();
-        format!("{} @ {}", m, self.loc)
+        // message kind only: cut at the first quoted / parenthesised part (which embeds input text)
+        let head = self.msg.split(|c| c == '`' || c == '\'' || c == '"' || c == '(' || c == ':' || c == '{').next().unwrap_or("");
+        let mut m = String::new();
+        for c in head.chars().take(48) {
+            let c = if c.is_ascii_digit() { '#' } else { c };
+            if c == '#' && m.ends_with('#') {
+                continue;
+            }
+            m.push(c);
+        }
+        let loc = if self.loc.starts_with("/rustc/") { self.loc.rsplit_once("library/").map(|x| x.1.to_string()).unwrap_or_default() } else { self.loc.clone() };
+        format!("{} @ {}", m.trim(), loc)
     }
 }
 
